@@ -102,7 +102,7 @@ class C19(Check):
                         rec.cls('step:' + s)
                     if set(log) & {'split', 'inline', 'extract'}:
                         rec.nt(text0, text1, codec)
-                if rec.evaluations % 50 == 0:
+                if len(rec.samples) < 2 or rec.evaluations % 50 == 0:
                     rec.sample({'original': text0, 'arranged': text1, 'steps': log})
         hyp_run(cases(prof), body, seed, n, rec, shrink=shard.get('_shrink', False),
                 timeout=shard.get('_timeout'))
